@@ -117,7 +117,11 @@ def run(ctx):
                 "input texts whose real tree has at least one terminal besides EndOfFile (counted from the walked "
                 "trees); inputs_with_parser_diagnostics in input_distribution says how many were malformed.",
         "input_distribution": summary,
-        "traces_validated_against_impl": summary.get("lex_cases", 0) + summary.get("oplog_cases", 0),
+        "traces_validated_against_impl": summary.get("lex_cases", 0) + summary.get("oplog_cases", 0)
+        + summary.get("loops_cases", 0),
+        "real_parser_loop_runs_watched": summary.get("real_parser_loop_runs_watched", 0),
+        "real_parser_loop_iterations_watched": summary.get("real_parser_loop_iterations_watched", 0),
+        "loop_runs_checked_in_coq_cases": summary.get("loops_cases", 0),
         "coq_case_shards": n_shards,
         "correspondence_disagreements": len(corr_bad),
         "oracle_failures_C09": n_mine,
@@ -133,8 +137,21 @@ def run(ctx):
         "one EndOfFile terminal, every other terminal has a non-empty token text, every trivium is non-empty, and "
         "the fuel (length+1) is never exhausted; C09_trivia_fuel_sufficient - the trivia loop's fuel is never "
         "exhausted; C09_diag_in_file - every diagnostic span produced by the token-plumbing model over any op "
-        "sequence lies in [0, |source|]. The model is compared with the real Lexer (and the parser's op log) on "
-        "this run's inputs inside Coq. "
+        "sequence lies in [0, |source|]; C09_recovery_progress - the recovery loops parse_list, "
+        "parse_separated_list_inner (incl. the missing-separator and forbid_trailing_separator paths) and "
+        "skip_until, modelled over the plumbing model for an arbitrary element parser: every iteration either ends "
+        "the loop or strictly decreases the unread text, so |unread|+1 fuel is never exhausted, PROVIDED the element "
+        "parser keeps the plumbing invariant, never un-reads, consumes when it answers Ok (or DoNothing and the "
+        "loop goes on), and should_stop holds at EndOfFile. Of these hypotheses, should_stop-at-EndOfFile is proved "
+        "for all 39 stop predicates of parser.rs (C09_recovery_stop_sites), invariant/no-un-read is proved for every "
+        "element parser acting through the plumbing operations (C09_recovery_element_ops), and the two consumption "
+        "hypotheses are facts about ~60 unmodelled grammar functions: they are CHECKED on every iteration of the "
+        "real loops of this run's Coq-leg inputs (hook loop events, Corr.v check_loops), not proved. The model is "
+        "compared with the real Lexer (and the parser's op log) on this run's inputs inside Coq. The other parser "
+        "loops (expression operators, paths, token trees, macro elements, modifiers, && conditions) are not "
+        "modelled, only WATCHED: on every input of the run, two consecutive iterations of the same loop run must "
+        "have consumed at least one byte (real_parser_loop_iterations_watched), else loop-no-progress is reported "
+        "with the input; the watchdog catches any loop without an event. "
         "EXPLORATION (not proof): totality of the Rust code. Every input of the run goes through the real "
         "lexer, parser (three file kinds), diagnostics rendering and formatter in watched child processes; a "
         "panic, hang, process death, or diagnostic span outside the file / off a character boundary is a "
